@@ -32,7 +32,7 @@ Definition lib_err (e : option string) : goerr := option_map LibErr e.
 Inductive merr :=
 | Fatal (e : gerrv)       (* log.Fatalf(.., err) / log.Fatal(err): exit status 1 *)
 | FatalNil                (* log.Fatal* reached with a nil error *)
-| UnsafeFormat            (* fmt.Sprintf(format, id) with a format outside the model (a '%' in the target path) *)
+| UnsafeFormat            (* fmt.Sprintf(format, id) with a format outside the model: a verb other than one %v and any number of %% *)
 | PipelinePanicked        (* processing.ProcessFeatures panics *)
 | SliceBounds             (* runtime error: slice bounds out of range *)
 | NilDeref                (* a nil / dangling *TargetGeopackage, a map read of a missing key that is then dereferenced *)
@@ -142,7 +142,30 @@ Definition go_path_Ext (p : str) : str :=
 (** path.Join(a, b): empty elements are ignored, the result is Cleaned *)
 Definition go_path_Join2 (a b : str) : str := path_join2 a b.
 
-(** fmt.Sprintf(format, id) for an int [id]: the model knows formats with exactly one verb, [%v] *)
+(** strings.ReplaceAll(s, old, new) for a non-empty [old]: the non-overlapping occurrences of [old], found from the left,
+    replaced by [new].  [skip] = how many characters of an occurrence that was just replaced are still to be passed over.
+    (With an empty [old] Go inserts [new] around every character: not modelled, the translator refuses an empty literal.) *)
+Fixpoint is_prefix (pre s : str) : bool :=
+  match pre, s with
+  | [], _ => true
+  | x :: pre', y :: s' => Ascii.eqb x y && is_prefix pre' s'
+  | _ :: _, [] => false
+  end.
+
+Fixpoint replace_all_from (old new s : str) (skip : nat) : str :=
+  match s with
+  | [] => []
+  | c :: r =>
+      match skip with
+      | S k => replace_all_from old new r k
+      | O => if is_prefix old s then new ++ replace_all_from old new r (Nat.pred (List.length old))
+             else c :: replace_all_from old new r O
+      end
+  end.
+
+Definition go_strings_ReplaceAll (s old new : str) : str := replace_all_from old new s O.
+
+(** fmt.Sprintf(format, id) for an int [id]: the model knows formats made of plain characters, %% and exactly one %v *)
 Definition op_Sprintf (fmt : str) (id : Z) : mres str :=
   match sprintf_v fmt id with Some s => MOk s | None => MErr UnsafeFormat end.
 
